@@ -12,10 +12,8 @@ IDS = ["C%02d" % i for i in range(1, 20)]
 
 def main():
     only = sys.argv[1:]
-    names = sorted(d for d in os.listdir(os.path.join(HERE, "seeded")) if os.path.isdir(os.path.join(HERE, "seeded", d)))
-    if only:
-        names = [n for n in names if n in only]
-    rows = []
+    allnames = sorted(d for d in os.listdir(os.path.join(HERE, "seeded")) if os.path.isdir(os.path.join(HERE, "seeded", d)))
+    names = [n for n in allnames if n in only] if only else allnames
     for name in names:
         d = os.path.join(HERE, "seeded", name)
         meta = json.load(open(os.path.join(d, "meta.json")))
@@ -37,9 +35,13 @@ def main():
             subprocess.check_call("git -C /repo checkout -- .", shell=True)
         meta["detected_by"] = det
         json.dump(meta, open(os.path.join(d, "meta.json"), "w"), indent=1)
-        own = det.get(meta["property"], "MISSED")
-        rows.append((name, meta["property"], own, ", ".join(f"{k}({v[0]})" for k, v in sorted(det.items()) if k != meta["property"])))
-        print(name, meta["property"], own, det, flush=True)
+        print(name, meta["property"], det.get(meta["property"], "MISSED"), det, flush=True)
+    rows = []
+    for name in allnames:      # the table always lists every stored change (from the recorded results)
+        meta = json.load(open(os.path.join(HERE, "seeded", name, "meta.json")))
+        det = meta.get("detected_by", {})
+        rows.append((name, meta["property"], det.get(meta["property"], "MISSED"),
+                     ", ".join(f"{k}({v[0]})" for k, v in sorted(det.items()) if k != meta["property"])))
     with open(os.path.join(HERE, "seeded", "MATRIX.md"), "w") as f:
         f.write("| seeded change | property | its own check | other checks that raise an alarm (f = failing input, n = no-failing-input-found) |\n|---|---|---|---|\n")
         for r in rows:
